@@ -524,6 +524,9 @@ func (s *IndexedState) deleteDependencies(ctx *Context, id string) error {
 	for _, sr := range srs.Found {
 		Log(DEBUG, ctx, "IndexedState.deleteDependencies",
 			"location", s.Name, "id", id, "target", sr.Id)
+		if !dependsOn(s.IdToFact[sr.Id], id) {
+			continue
+		}
 		if err := s.remHookDependent(ctx, sr.Id); nil != err {
 			return err
 		}
